@@ -395,7 +395,10 @@ import c10  # noqa: E402
 
 @M.rule("C19-R5", "value lists are in arrival order: URL values first, body values appended; parsed lists only grow by push (shared with C12-R1, C10-R4)")
 def r5(ctx):
-    for r in list(c12.r1(ctx)) + [x for x in c10.r4(ctx) if "insert" in x.key or "store" in x.key or x.status != "PASS"]:
+    # the carrier matrix (R4) sees form-body X-Amz-* parameters only because they were folded first: whether that happens
+    # must not depend on anything but the option and the content type (C12-R2 folding-conditions)
+    fold = [x for x in c12.r2(ctx) if "folding-condition" in x.key]
+    for r in list(c12.r1(ctx)) + [x for x in c10.r4(ctx) if "insert" in x.key or "store" in x.key or x.status != "PASS"] + fold:
         r.rule = "C19-R5"
         yield r
 
